@@ -111,7 +111,7 @@ static int32_t j_add(enum qb_loop_priority p, void *data, qb_loop_job_dispatch_f
 }
 
 /* ------------------------------------------------------------------ lab state */
-#define MAXC 96
+#define MAXC 200
 #define MAXS 6
 struct sc { qb_ipcs_connection_t *p; int accept_called, created_called, closed_called, destroyed_called, uref, slot; };
 static struct sc C[MAXC];
@@ -567,7 +567,8 @@ int main(void)
 			while ((tok = NEXT(&p)) && b.nact < 8) {
 				if (parse_act(tok, &b.a[b.nact]) == 0) b.nact++;
 			}
-			if (btail[ki] < MAXB) btab[ki][btail[ki]++] = b;
+			if (btail[ki] >= MAXB) continue;       /* table full: the entry is dropped and not echoed */
+			btab[ki][btail[ki]++] = b;
 			/* echoed in canonical form: the model reads the table from the log */
 			printf("beh %c %d", kinds[ki], b.ret);
 			for (ki = 0; ki < b.nact; ki++) {
